@@ -97,10 +97,15 @@ class TextPixelRegion(PointPixelRegion):
         artist : `~matplotlib.text.Text`
             A matplotlib Text object.
         """
+        from matplotlib import cbook
         from matplotlib.text import Text
 
+        # use matplotlib's canonical spelling on both sides so that a
+        # caller keyword (e.g., ``fontsize``) overrides the same
+        # property derived from the visual attributes (e.g., ``size``)
         mpl_kwargs = self.visual.define_mpl_kwargs(self._mpl_artist)
-        mpl_kwargs.update(kwargs)
+        mpl_kwargs = cbook.normalize_kwargs(mpl_kwargs, Text)
+        mpl_kwargs.update(cbook.normalize_kwargs(kwargs, Text))
 
         return Text(self.center.x - origin[0], self.center.y - origin[1],
                     self.text, **mpl_kwargs)
